@@ -90,14 +90,17 @@ RoutingTotal == (Mode = "route" /\ phase = "case") => RoutingTotalOn(TokPid, Act
 
 (* Replication sets are exactly the healthy registered owners, and need one.        *)
 Ops == {"Write", "Read", "Reporting"}
+(* ... on EVERY partition ring a PartitionInstanceRing can be built over: the whole ring and any     *)
+(* sub-ring (ShuffleShard / ShuffleShardWithLookback hand out rings over a subset M of partitions).  *)
 ReplExact ==
     (Mode = "repl" /\ phase = "case") =>
-        \A op \in Ops :
-            LET r == ReplicationSets(Pid, ownerOf, inst, op, T) IN
-            /\ r.err = "none" <=> \A p \in Pid : \E o \in OwnerI : ownerOf[o] = p /\ Healthy(inst[o], op, T)
-            /\ r.err = "none" => \A p \in Pid : /\ r.sets[p].instances # {}
-                                                 /\ \A o \in OwnerI : o \in r.sets[p].instances
-                                                        <=> (ownerOf[o] = p /\ Healthy(inst[o], op, T))
+        \A op \in Ops : \A M \in SUBSET Pid :
+            LET r == ReplicationSets(M, ownerOf, inst, op, T) IN
+            /\ (r.err = "empty") <=> (M = {})
+            /\ r.err = "none" <=> (M # {} /\ \A p \in M : \E o \in OwnerI : ownerOf[o] = p /\ Healthy(inst[o], op, T))
+            /\ r.err = "none" => \A p \in M : /\ r.sets[p].instances # {}
+                                               /\ \A o \in OwnerI : o \in r.sets[p].instances
+                                                      <=> (ownerOf[o] = p /\ Healthy(inst[o], op, T))
 MultiSound ==
     (Mode = "multi" /\ phase = "case") =>
         \A op \in Ops : \A p \in Pid :
@@ -129,12 +132,12 @@ EmitRepl ==
         ownerOf |-> [o \in OwnerI |-> ownerOf[o]],
         inst    |-> [o \in OwnerI |-> inst[o]],
         res     |-> [op \in Ops |->
-                      LET r == ReplicationSets(Pid, ownerOf, inst, op, T) IN
-                      [err |-> r.err,
-                       sets |-> IF r.err = "none"
-                                THEN {[p |-> p, instances |-> r.sets[p].instances, muz |-> r.sets[p].maxUnavailableZones,
-                                       maxErrors |-> r.sets[p].maxErrors, zoneAware |-> r.sets[p].zoneAware] : p \in Pid}
-                                ELSE {}]]]))
+                      {LET r == ReplicationSets(M, ownerOf, inst, op, T) IN
+                       [m |-> M, err |-> r.err,
+                        sets |-> IF r.err = "none"
+                                 THEN {[p |-> p, instances |-> r.sets[p].instances, muz |-> r.sets[p].maxUnavailableZones,
+                                        maxErrors |-> r.sets[p].maxErrors, zoneAware |-> r.sets[p].zoneAware] : p \in M}
+                                 ELSE {}] : M \in SUBSET Pid}]]))
 
 EmitMulti ==
     PrintT(ToJson([
